@@ -10,8 +10,9 @@ func init() {
 			"identity-header depths above one are verified through reference relay hops implementing only the SIP022 UDP header-stripping step",
 		}, commonAssume...),
 		Parts: []partSpec{
-			{Name: "codec", Flavour: "plain", TimeoutQ: m10, TimeoutT: m60},
-			{Name: "relay", Flavour: "plain", TimeoutQ: m10, TimeoutT: m60},
+			{Name: "codec", Flavour: "plain", TimeoutQ: m10, TimeoutT: m60, Weight: 7},
+			{Name: "relay", Flavour: "plain", TimeoutQ: m10, TimeoutT: m60, Weight: 7},
+			{Name: "live-roam", Flavour: "ft", TimeoutQ: m10, TimeoutT: m60, Weight: 2},
 		},
 	}
 }
